@@ -467,6 +467,19 @@ def rule_B3(ctx):
         slope_b, icpt_b = Fraction(255, 100), Fraction(255, 100) * 50 - 128
         ok2 = slope_p * slope_b == 1 and slope_b * icpt_p + icpt_b == 0
         ctx.ob("B3", bf, "the two lines are exact inverses over the rationals", ok2, f"{slope_p}*{slope_b}, {slope_b * icpt_p + icpt_b}", inst="inverse")
+    # sibling agreement on the special case: byte -> cents sends byte 0 to 0 cents, a point that is NOT on the line
+    # (the line gives 100/255*128 - 50 at byte 0).  Coming back, 0 cents lies at 255/100*50 = 127.5 on the inverse line: an exact
+    # rounding tie, which the float product 2.55*50 = 127.49999999999999 resolves downwards (byte -1).  Unless the rounded inverse
+    # line provably returns the byte (distance to the tie strictly below 1/2 over the rationals), cents -> byte needs its own branch.
+    parse_zero = any(p.end == "return" and p.ret == C(0) for p in pp)
+    build_zero = any(p.end == "return" and p.ret == C(0) for p in bp)
+    if parse_zero:
+        off_line = Fraction(255, 100) * (0 + 50) - 128          # inverse line at the special value 0 cents, as a byte
+        robust = abs(off_line - 0) < Fraction(1, 2)             # rounds to byte 0 whatever the float error
+        ok3 = build_zero or robust
+        ctx.ob("B3", bf, "byte 0 <-> 0 cents: the special case of byte -> cents is mirrored by cents -> byte (0 cents is a rounding tie of the inverse line)", ok3,
+               "" if ok3 else f"parse_akai_tune_cents maps byte 0 to 0 cents off the line, build_akai_tune_cents has no branch for 0 cents and its line gives {off_line} + 128 = {off_line + 128} before rounding: a tie, byte 0 does not round-trip",
+               inst="zero-pairing")
     ad = ctx.fn(DT, "AkaiTuneCents", "B3")
     # the adapter's decoder / encoder (positional or keyword, lambda or - after normalisation - local function) as canonical lambdas
     ok = False
